@@ -27,6 +27,7 @@ CODES = {
     13: "the canary stayed paused although canary-unpaused is true and it is not failed",
     14: "status.state / status.reason do not reflect the paused, frozen or canary situation",
     15: "a paused canary without the canary-valid annotation was promoted",
+    16: "the canary-valid annotation names the (not failed) new replica set but it was not made the active one",
     20: "harness panic",
 }
 GO_TIMEOUT = 1200
